@@ -37,6 +37,7 @@ type Case struct {
 	TS       int    `json:"ts"`       // 1: client writes carry explicit source timestamps, random within +-1 h (not monotonic)
 	Map      int    `json:"map"`      // 1: the keys m1.. of the map namespace are monitored and written as well (application mode: MapNamespace.SetValue)
 	Late     int    `json:"late"`     // 1: after the last write a second subscription of the same NodeMonitor adds every node (no write follows)
+	Forced   int    `json:"forced"`   // application mode only: number of forced interleavings per node (announcer 1 is held in the value callback right after sampling until announcer 2 has queued its newer value, or a time-out)
 	App      int    `json:"app"`      // 1: values change inside the server application (callback-backed nodes, announced with Server.ChangeNotification from concurrent goroutines) instead of client writes
 	Salt     int    `json:"salt"`
 }
@@ -98,6 +99,9 @@ func runCase(c Case) {
 		if len(ls) == 1 && ls[0].Err == "" {
 			l := ls[0]
 			class := fmt.Sprintf("nodes%d/%s/int%d/churn%v/app%d/map%d/ts%d/late%d/notifs%s", c.Nodes, c.Mode, c.Interval, c.Churn > 0, c.App, c.Map, c.TS, c.Late, bucket(l.Stats["notify"]))
+			if c.Forced > 0 {
+				class += fmt.Sprintf("/forced%d", c.Forced)
+			}
 			vfgo.Emit(vfgo.Result{Case: c, Status: "ok", Class: class, Nontrivial: l.Stats["notify"] > c.Nodes,
 				Obs: map[string]any{"events": l.Events, "stats": l.Stats}})
 			done = true
@@ -173,6 +177,14 @@ func child() {
 		nT = 2 * c.Nodes
 	}
 	cur := make([]atomic.Int64, nT)
+	armed := make([]atomic.Bool, nT)
+	entered := make([]chan struct{}, nT)
+	release := make([]chan struct{}, nT)
+	for i := range entered {
+		entered[i] = make(chan struct{}, 1)
+		release[i] = make(chan struct{}, 1)
+	}
+	holdMax := time.Duration(6*c.Interval+150) * time.Millisecond
 	var gate atomic.Int64
 	var valueOf func(i int) any
 	if c.App > 0 {
@@ -180,7 +192,16 @@ func child() {
 			cur[i].Store(int64(i+1) * tagBase)
 			return func() *ua.DataValue {
 				v := cur[i].Load()
-				if x := gate.Add(1); x%3 == 0 {
+				if c.Forced > 0 {
+					// forced schedule: the armed caller is parked right after it sampled the value
+					if armed[i].CompareAndSwap(true, false) {
+						entered[i] <- struct{}{}
+						select {
+						case <-release[i]:
+						case <-time.After(holdMax):
+						}
+					}
+				} else if x := gate.Add(1); x%3 == 0 {
 					time.Sleep(time.Duration((x*7919)%400) * time.Microsecond)
 				}
 				return server.DataValueFromValue(v)
@@ -299,6 +320,52 @@ func child() {
 		go func(i int, t tgt) {
 			defer wg.Done()
 			rng := vfgo.Rand(int64(c.Salt)*100 + int64(i))
+			if c.App > 0 && c.Forced > 0 && !t.isKey {
+				// Forced interleaving, independent of the seed: announcer 1 samples value k1 and is parked in
+				// the value callback; the value becomes k2 and announcer 2 runs; when announcer 2 is through
+				// (or, where the server serialises announcers, after a time-out) announcer 1 goes on.  Under the
+				// contract the notifications are queued in sampling order whatever happens.
+				time.Sleep(300 * time.Millisecond) // the initial notifications are out
+				announce := func() chan struct{} {
+					d := make(chan struct{})
+					go func() { srv.S.ChangeNotification(t.id); close(d) }()
+					return d
+				}
+				k := int64(0)
+				for rep := 0; rep < c.Forced; rep++ {
+					k++
+					rec.log("wcall", t.name, "", k)
+					cur[i].Store(int64(i+1)*tagBase + k)
+					rec.log("wret", t.name, "", k)
+					armed[i].Store(true)
+					a1 := announce()
+					select {
+					case <-entered[i]:
+					case <-time.After(3 * time.Second):
+						werr.Store("forced schedule: announcer 1 never reached the value callback")
+						return
+					}
+					k++
+					rec.log("wcall", t.name, "", k)
+					cur[i].Store(int64(i+1)*tagBase + k)
+					rec.log("wret", t.name, "", k)
+					a2 := announce()
+					select {
+					case <-a2: // announcer 2 overtook announcer 1: let its value be published first
+						time.Sleep(time.Duration(3*c.Interval) * time.Millisecond)
+					case <-time.After(holdMax / 2):
+					}
+					release[i] <- struct{}{}
+					<-a1
+					<-a2
+					select { // a release that was not consumed (time-out in the callback) must not leak into the next round
+					case <-release[i]:
+					default:
+					}
+					time.Sleep(time.Duration(3*c.Interval) * time.Millisecond)
+				}
+				return
+			}
 			// at least c.Writes writes; with churn, keep writing until the churn rounds are over
 			for k := int64(1); k <= int64(c.Writes) || (c.Churn > 0 && !churnDone.Load() && k < 200000); k++ {
 				if c.Pause > 0 {
